@@ -29,7 +29,7 @@ func init() {
 	core.Register(&core.Check{
 		ID:    "C19",
 		Level: "model_checking",
-		Rule: "all histories of <=1 (thorough <=2) earlier programs followed by a program under test over an alphabet of 49 programs (incl. pairs that raise the same run-time error from different source positions, and programs that invite!/import the embedded and Go standard modules after defining variables) (define a variable, read it, shadow a built-in name, use a built-in, raise `_` on different lines, touch Either's abstract props, raise at depth 2, syntax error, intern new symbols via evalEnv, print, read stdin, iterate, user error, error inside native code, inspect built-in prototypes), " +
+		Rule: "all histories of <=1 (thorough <=2) earlier programs followed by a program under test over an alphabet of 51 programs (incl. pairs that raise the same run-time error from different source positions, and programs that invite!/import the embedded and Go standard modules after defining variables) (define a variable, read it, shadow a built-in name, use a built-in, raise `_` on different lines, touch Either's abstract props, raise at depth 2, syntax error, intern new symbols via evalEnv, print, read stdin, iterate, user error, error inside native code, inspect built-in prototypes), " +
 			"each history in a new process, under 2 reuse drivers (playground: one const env, one enclosed scope per program - the call sequence of web/wasm/executor.go; `pangaea test`: runscript.RunTest over a generated directory); " +
 			"oracle: (stdout, value, error message, stack trace) of the program under test equals its observation alone in a new process; states = histories, transitions = program evaluations; " +
 			"non-trivial = every history of length >=1; distinct = distinct (driver, history, program)",
@@ -104,6 +104,10 @@ var alphabet = []prog{
 	{Name: "invite-go-module-after-definitions", Src: "secretGo := 43\ninvite!(\"dummy\")\n[message, secretGo]"},
 	{Name: "import-modules-keys", Src: "[import(\"dummy\").keys, import(\"http\").keys, import(\"dummy_native\").keys]"},
 	{Name: "import-wrong-module", Src: "import(\"dummy_native_wrong\")", Fails: true},
+	// an instance of a user-defined Str descendant is the first use of a new name (map key / which argument); a later
+	// program receives that name from the interpreter (evalEnv keys) and looks at more than its text
+	{Name: "descendant-str-as-first-use-of-a-name", Src: "MyStr := Str.bear({shout: m{\"from the earlier program\"}})\nk := MyStr.new(\"zz_c19_fresh_name\")\nw := MyStr.new(\"zz_c19_which_name\")\n[%{k: 1}.len, %{}[k], {a: 1}.which(w)]"},
+	{Name: "names-handed-out-by-evalEnv", Src: "ks := \"zz_c19_fresh_name := 1; zz_c19_which_name := 2\".evalEnv.keys\nks@{|k| [k, k.proto == Str, k['shout], k.kindOf?(Str)]}"},
 	{Name: "bear-patch-builtins", Src: "c := Int.bear({extra: 1})\nd := {a: 1}.patch(b: 2)\n[c['extra], Int['extra], d, Obj['b]]"},
 }
 
